@@ -28,7 +28,7 @@ def run(chk):
     for _ in range(30000 if chk.tier == "quick" else 300000):
         k = rng.randint(6, 14)
         pieces = ["{", "}", "{{", "}}", "1", "2", "-1", ":", ",", "=x", "a", "\\n", "\\t", " ", "é", "0", "+3", "2147483647", "2147483648",
-                  "-2147483648", "-2147483649", "3:1", "-3:2", "{1}", "{2:3}", "{1,2}", "{:2=f}"]
+                  "-2147483648", "-2147483649", "3:1", "-3:2", "{1}", "{2:3}", "{1,2}", "{:2=f}", "Ż", "Ž", "ĺ", "Ľ", "ı", "=n=a", "46341", "65536", "-65536", "100000"]
         strs.append("".join(rng.choice(pieces) for _ in range(rng.randint(1, 6)))[:k + 8])
     cases = [{"kind": "parse", "s": s} for s in strs]
     lines = [case_line(c) for c in cases]
